@@ -13,7 +13,9 @@ package main
 //	    → r=<result per API call> hit=<index of the call in which each fault fired> log=<destination operations> out=<hex> ci=<CheckIntegrity of out>
 //	wrx …same, no f=…   sweep: the run is repeated with one fault at every operation k of the fault-free run and
 //	    j ∈ {0, 1, len-1, len} (a seek: j = 0); each entry is the crash state "operations before k took effect, j bytes of operation k"
-//	    → n=<fault points> then per point k.j=<r>/<hit>/<fnv64 of out>/<ci>[/<out hex when ci is ok>]
+//	    → n=<fault points> then per point k.j=<r>/<hit>/<fnv64 of out>/<ci>[/<out hex when ci is ok>][/not-a-crash-prefix]
+//	    (the last mark: the faulted run did NOT leave the healthy run's first k operations + j bytes of the next, or went on
+//	    issuing operations after the failure — never printed by the model)
 //	wrc a= h= l= pv= v= pre= <files…>   cross-configuration: all kinds × buffer sizes × batch/stream on the same input
 //	    → same <configs> <status> <out hex> | differ <cfgA> <cfgB> | rejected
 //
@@ -48,6 +50,12 @@ func init() {
 
 var errWrInjected = errors.New("injected destination fault")
 
+type wrRawOp struct {
+	kind byte // w, a, s
+	p    []byte
+	off  int64
+}
+
 type wrDest struct {
 	buf    []byte
 	pos    int64
@@ -55,6 +63,32 @@ type wrDest struct {
 	faults map[int]int
 	log    []string
 	fired  []int // operation numbers at which a fault fired
+	raw    []wrRawOp
+}
+
+// wrReplay: the content after the first k operations of ops took effect in full and j bytes of operation k
+// (a crash of the destination at that point), starting from pre
+func wrReplay(pre []byte, ops []wrRawOp, k, j int) []byte {
+	d := &wrDest{buf: append([]byte(nil), pre...), pos: int64(len(pre))}
+	for i := 0; i <= k && i < len(ops); i++ {
+		op := ops[i]
+		p := op.p
+		if i == k {
+			p = p[:min(j, len(p))]
+		}
+		switch op.kind {
+		case 'w':
+			d.store(d.pos, p)
+			d.pos += int64(len(p))
+		case 'a':
+			d.store(op.off, p)
+		case 's':
+			if i < k {
+				d.pos += op.off
+			}
+		}
+	}
+	return d.buf
 }
 
 func (d *wrDest) store(off int64, p []byte) {
@@ -79,6 +113,7 @@ func (d *wrDest) fault() (int, bool) {
 }
 
 func (d *wrDest) write(p []byte) (int, error) {
+	d.raw = append(d.raw, wrRawOp{'w', append([]byte(nil), p...), 0})
 	if j, bad := d.fault(); bad {
 		t := min(j, len(p))
 		d.store(d.pos, p[:t])
@@ -93,6 +128,7 @@ func (d *wrDest) write(p []byte) (int, error) {
 }
 
 func (d *wrDest) writeAt(p []byte, off int64) (int, error) {
+	d.raw = append(d.raw, wrRawOp{'a', append([]byte(nil), p...), off})
 	if j, bad := d.fault(); bad {
 		t := min(j, len(p))
 		d.store(off, p[:t])
@@ -110,6 +146,7 @@ func (d *wrDest) seek(off int64, whence int) (int64, error) {
 		d.log = append(d.log, fmt.Sprintf("S%d/%d", off, whence))
 		return 0, errors.New("unexpected whence")
 	}
+	d.raw = append(d.raw, wrRawOp{'s', nil, off})
 	if _, bad := d.fault(); bad {
 		d.log = append(d.log, fmt.Sprintf("s%d!", off))
 		return 0, errWrInjected
@@ -273,6 +310,7 @@ type wrOut struct {
 	hits    []int
 	log     []string
 	out     []byte
+	raw     []wrRawOp
 	refused bool // NewStream refused the writer
 }
 
@@ -325,7 +363,7 @@ func wrRun(c *wrCfg, faults map[int]int) (o wrOut, bad bool) {
 			}
 		}
 	}
-	o.log, o.out = d.log, d.buf
+	o.log, o.out, o.raw = d.log, d.buf, d.raw
 	return o, false
 }
 
@@ -420,6 +458,10 @@ func execWrX(args []string) string {
 			fmt.Fprintf(&sb, " %d.%d=%s/%s/%016x/%s", k, j, wrJoin(o.results), wrJoinInts(o.hits), wrFnv(o.out), ci)
 			if strings.HasPrefix(ci, "ok") {
 				sb.WriteString("/" + hex.EncodeToString(o.out))
+			}
+			// the faulted run must have left exactly the crash state "first k operations of the healthy run, j bytes of the next"
+			if !bytes.Equal(o.out, wrReplay(c.pre, base.raw, k, j)) || len(o.log) != k+1 {
+				sb.WriteString("/not-a-crash-prefix")
 			}
 			n++
 		}
